@@ -207,11 +207,7 @@ func (fc *FnCtx) checkRunning(st *State, after ast.Stmt) {
 		if t == nil {
 			continue
 		}
-		ord := rc.Ord
-		if ord == 0 {
-			ord = k + 1
-		}
-		fc.oblige(st, fmt.Sprintf("running%d", ord), t, after.Pos(), rc.Text)
+		fc.oblige(st, "running"+rc.ordName(k), t, after.Pos(), rc.Text)
 		st.Assume(t)
 	}
 }
@@ -858,11 +854,7 @@ func (fc *FnCtx) checkInvariants(st *State, ls *LoopSpec, n int, phase string, e
 		sc := fc.specCtx(st, extraScope)
 		sc.pol = 1
 		t := sc.evalBool(inv.Expr)
-		ord := inv.Ord
-		if ord == 0 {
-			ord = k + 1
-		}
-		fc.obligeNamed(st, fmt.Sprintf("%s#loop%d.inv%d.%s", fc.name, n, ord, phase), "invariant", t, pos, inv.Text)
+		fc.obligeNamed(st, fmt.Sprintf("%s#loop%d.inv%s.%s", fc.name, n, inv.ordName(k), phase), "invariant", t, pos, inv.Text)
 	}
 }
 
@@ -1033,6 +1025,10 @@ func (fc *FnCtx) execRange(st *State, x *ast.RangeStmt) []Outcome {
 		}
 	case "string":
 		s := coll.(*Term)
+		if fc.e.langs.Has("UTF8_VALID") {
+			// range visits rune boundaries: the unread suffix of a well-formed string is well-formed
+			body.Assume(Implies(fc.e.inL(s, "UTF8_VALID"), fc.e.inL(Substr(s, idx, StrLen(s)), "UTF8_VALID")))
+		}
 		r, w := fc.e.decodeRune(body, Substr(s, idx, StrLen(s)))
 		step = w
 		if keyObj != nil {
